@@ -145,4 +145,65 @@ theorem beNat_ofNatBE (k n : Nat) (h : n < 256 ^ k) : Bytes.beNat (Bytes.ofNatBE
     rw [Bytes.ofNatBE, beNat_snoc, ih _ hd, hx]
     omega
 
+/-- `x[-1:]` -/
+theorem pySlice_last (x : Bytes) : pySlice x (some (-1 : Int)) none = x.drop (x.length - 1) := by
+  have h : ((-1 : Int)) < 0 := by omega
+  simp only [pySlice, Option.map_none, Option.getD_none, Option.map_some, Option.getD_some, bound, Bytes.slice, h, if_true]
+  have e : ((-1 : Int) + (x.length : Int)).toNat = x.length - 1 := by omega
+  rw [e, List.take_of_length_le]
+  simp only [List.length_drop]; omega
+
+/-- `x[:-1]` -/
+theorem pySlice_init (x : Bytes) : pySlice x none (some (-1 : Int)) = x.dropLast := by
+  have h : ((-1 : Int)) < 0 := by omega
+  simp only [pySlice, Option.map_none, Option.getD_none, Option.map_some, Option.getD_some, bound, Bytes.slice, List.drop_zero, Nat.sub_zero,
+    h, if_true, List.dropLast_eq_take]
+  congr 1; omega
+
+/-- `x.rstrip(b"\x00")` -/
+theorem rstrip_zero (x : Bytes) : rstrip x [0] = (x.reverse.dropWhile (· = 0)).reverse := by
+  unfold rstrip
+  congr 2
+  funext b
+  simp [List.contains_cons]
+
+/-- `d[k] = v` then `d.get(k')` -/
+theorem tableGet_tableSet {κ ν : Type} [DecidableEq κ] (t : List (κ × ν)) (k k' : κ) (v : ν) :
+    tableGet (tableSet t k v) k' = if k' = k then some v else tableGet t k' := by
+  unfold tableSet tableGet
+  by_cases ha : (t.any fun e => decide (e.1 = k)) = true
+  · simp only [ha, if_true]
+    rw [← List.map_reverse, List.find?_map]
+    have hf : ((fun e : κ × ν => decide (e.1 = k')) ∘ fun e => if e.1 = k then (k, v) else e) = fun e => decide (e.1 = k') := by
+      funext e
+      by_cases he : e.1 = k <;> simp [he]
+    rw [hf]
+    by_cases hk : k' = k
+    · subst hk
+      simp only [if_true]
+      have : ∃ e, List.find? (fun e : κ × ν => decide (e.1 = k')) t.reverse = some e ∧ e.1 = k' := by
+        rw [List.any_eq_true] at ha
+        obtain ⟨e, he, hk⟩ := ha
+        cases hfe : List.find? (fun e : κ × ν => decide (e.1 = k')) t.reverse with
+        | none =>
+          rw [List.find?_eq_none] at hfe
+          exact absurd hk (hfe e (List.mem_reverse.mpr he))
+        | some e' =>
+          exact ⟨e', rfl, by simpa using List.find?_some hfe⟩
+      obtain ⟨e, he, hk⟩ := this
+      simp [he, hk]
+    · simp only [hk, if_false]
+      cases hfe : List.find? (fun e : κ × ν => decide (e.1 = k')) t.reverse with
+      | none => rfl
+      | some e =>
+        have : e.1 = k' := by simpa using List.find?_some hfe
+        have : ¬ e.1 = k := by rw [this]; exact hk
+        simp [this]
+  · simp only [ha, Bool.false_eq_true, if_false, List.reverse_append, List.reverse_cons, List.reverse_nil, List.nil_append, List.singleton_append,
+      List.find?_cons]
+    by_cases hk : k' = k
+    · subst hk; simp
+    · have : ¬ k = k' := fun h => hk h.symm
+      simp [hk, this]
+
 end TLX.PyRt
